@@ -76,8 +76,11 @@ def el_sqrt(x):
             return x
         raise Unsupported(f'sqrt of polynomial {x!r} (not in the registered table)')
     if isinstance(x, SV):
-        from .builtins_model import sym_sqrt
-        return sym_sqrt(STATE['engine'], STATE['cx'], None, x)
+        # tensor sqrt: NaN (no exception) for negative input; the root is only characterised for x >= 0
+        cx = STATE['engine'].current_cx
+        r = cx.fresh('tsqrt')
+        cx.assume(z3.Implies(x.e >= 0, z3.And(r >= 0, r * r == x.e)))
+        return SV(r)
     raise Unsupported(f'sqrt of {x!r}')
 
 
